@@ -26,6 +26,10 @@ CHECKS['C13'] = dict(tech='Hypothesis structured operand generation (exponent ga
              text='Adder, multiplier, comparator (plain/absolute), int->float and float->int are driven with normal operands whose exponent pair is chosen by gap (every alignment shift, gaps beyond the mantissa), mantissa boundary patterns and opposite-sign close magnitudes; outputs are decoded to exact rationals and compared with the stated bounds (ordering exact, <1 ulp product, <2 ulp of larger operand sum + sign, commutativity, truncation/p_lost/invalid). Exploration (sampled).',
              note='Trusted: Fraction arithmetic, the harness IEEE-754 decoder. Operands restricted to finite normals; results judged only when the exact result is normal.',
              ref='DESIGN.md 2/C13')
+CHECKS['C09'] = dict(tech='model-based Hypothesis input histories against per-block reference state machines + exhaustive BFS of the product machine for tiny configurations',
+             text='13 sequential blocks are stepped in lock-step with reference state machines from power-up over generated histories (bursts of reset/enable/push/pop, same-address read/write), outputs compared before and after every edge; for tiny configurations every transition of the reachable product machine is executed. Exploration (BFS stratum complete for the listed tiny configurations).',
+             note='Trusted: the reference machines in pbt/props/c09.py. Controls are 1-bit; power-up output before the first edge belongs to C01.',
+             ref='DESIGN.md 2/C09')
 NOT_APPLICABLE = {}
 
 def main():
